@@ -94,7 +94,7 @@ def monitors_for(case, with_tree=True):
 def run(case, prefix, nontrivial):
     mons, lc, cm = monitors_for(case)
     try:
-        ctx = drive(case, mons, learner_cls=lc, build_cm=cm)
+        ctx = drive(case, mons, learner_cls=lc, build_cm=cm, own=prefix)
     finally:
         for m in mons:
             getattr(m, "_remove", lambda: None)()
